@@ -141,3 +141,39 @@ int bad_arg_guard__even__bn_smb_jac(const bn_t a, const bn_t b) {
 	}
 	return bn_is_even(a) ? 0 : 1;
 }
+
+int ok_e__bn_is_prime(const bn_t a) {
+	int result = 0;
+	if (!bn_is_prime_basic(a)) {
+		goto end;
+	}
+	if (bn_bits(a) <= 23) {
+		/* below 3671^2 trial division is conclusive */
+		result = 1;
+		goto end;
+	}
+	if (!bn_is_prime_rabin(a)) {
+		goto end;
+	}
+	result = 1;
+  end:
+	return result;
+}
+
+/* 2^24 is above the square of the last trial prime */
+int bad_prime_pipe__bound__bn_is_prime(const bn_t a) {
+	int result = 0;
+	if (!bn_is_prime_basic(a)) {
+		goto end;
+	}
+	if (bn_bits(a) <= 24) {
+		result = 1;
+		goto end;
+	}
+	if (!bn_is_prime_rabin(a)) {
+		goto end;
+	}
+	result = 1;
+  end:
+	return result;
+}
